@@ -217,13 +217,23 @@ func fieldOf(v ssa.Value) (string, ssa.Value) {
 
 // desc gives a canonical, position-free description of an SSA value, used to match guard
 // operands and argument provenance against the rule tables.
-func desc(v ssa.Value) string { return descD(v, 0) }
+func desc(v ssa.Value) string {
+	descBudget = 400
+	return descD(v, 0)
+}
+
+// descBudget bounds the number of nodes one description may expand (phi-rich values explode otherwise).
+var descBudget int
 
 func descD(v ssa.Value, d int) string {
 	if v == nil {
 		return "nil"
 	}
 	if d > 8 {
+		return "…"
+	}
+	descBudget--
+	if descBudget < 0 {
 		return "…"
 	}
 	switch x := v.(type) {
